@@ -71,6 +71,29 @@ fn run_case(t: &mut Trace, case: u64, kind: &str, variant: &str, start: u32, src
         let it: BoxIt = match variant {
             "merge" => Box::new(SortingMultiReaderIterator::new(start, its)),
             "merge_single" => SortingMultiReaderIterator::new_or_single_it(start, its),
+            // the composition convert.rs / remote.rs build: every merge source is itself a chain of member iterators (files of one
+            // stream); members may be empty and say so by an exact size hint (Vec iterators, std::iter::empty)
+            "merge_of_chains_empty_first" | "merge_of_chains_split" => {
+                let split = variant.ends_with("split");
+                let chains: Vec<BoxIt> = orig
+                    .iter()
+                    .enumerate()
+                    .map(|(si, v)| {
+                        let k = if split { ((v.len() + si) / 2).min(v.len()) } else { 0 };
+                        let members: Vec<BoxIt> = vec![
+                            Box::new(v[..k].to_vec().into_iter()) as BoxIt,
+                            if si % 2 == 0 { Box::new(Vec::<DltMessage>::new().into_iter()) as BoxIt } else { Box::new(std::iter::empty()) as BoxIt },
+                            Box::new(v[k..].to_vec().into_iter()) as BoxIt,
+                        ];
+                        if si % 3 == 2 {
+                            Box::new(SequentialMultiIterator::new(0, members.into_iter())) as BoxIt
+                        } else {
+                            SequentialMultiIterator::new_or_single_it(0, members.into_iter())
+                        }
+                    })
+                    .collect();
+                Box::new(SortingMultiReaderIterator::new(start, chains))
+            }
             "chain" => Box::new(SequentialMultiIterator::new(start, its.into_iter())),
             "chain_single" => SequentialMultiIterator::new_or_single_it(start, its.into_iter()),
             // the sources arrive from an iterator that does not know how many there are (size_hint (0, None)) ...
@@ -109,7 +132,7 @@ fn run_case(t: &mut Trace, case: u64, kind: &str, variant: &str, start: u32, src
 }
 
 fn variants(kind: &str) -> Vec<&'static str> {
-    if kind == "merge" { vec!["merge", "merge_single"] } else { vec!["chain", "chain_single", "chain_lazy", "chain_filtered"] }
+    if kind == "merge" { vec!["merge", "merge_single", "merge_of_chains_empty_first", "merge_of_chains_split"] } else { vec!["chain", "chain_single", "chain_lazy", "chain_filtered"] }
 }
 
 fn main() {
